@@ -65,7 +65,8 @@ def gen_doc(r, k):
         elif kind == "imgset":
             u0, u1, u2 = ref(r, name(), "jpg"), ref(r, name(), "jpg"), ref(r, name(), "jpg")
             u1, u2 = u1.replace(",", ""), u2.replace(",", "")
-            add("img", [("src", u0), ("srcset", "%s 1x, %s 2x" % (u1, u2))]); planted += [("img", u0), ("img", u1), ("img", u2)]
+            sep = r.choice([", ", ", ", ",", ",\n      ", " , "])     # minified pages put nothing after the comma
+            add("img", [("src", u0), ("srcset", "%s 1x%s%s 2x" % (u1, sep, u2))]); planted += [("img", u0), ("img", u1), ("img", u2)]
         elif kind == "script":
             u = ref(r, name(), "js", odd=True, relative_only=True); add("script", [("src", u)], void=False); planted.append(("script", u))
         elif kind == "css":
@@ -77,7 +78,7 @@ def gen_doc(r, k):
         elif kind == "picture":
             u1, u2, u3 = ref(r, name(), "webp").replace(",", ""), ref(r, name(), "webp").replace(",", ""), ref(r, name(), "jpg")
             els.append({"tag": "picture", "attrs": [], "text": "", "void": False, "open": True})
-            add("source", [("type", "image/webp"), ("srcset", "%s 480w, %s 800w" % (u1, u2))])
+            add("source", [("type", "image/webp"), ("srcset", "%s 480w%s%s 800w" % (u1, r.choice([", ", ",", ",\n  "]), u2))])
             add("img", [("src", u3)])
             els.append({"close": "picture"})
             planted += [("source", u1), ("source", u2), ("img", u3)]
@@ -176,9 +177,14 @@ def run(ctx):
             start = page
             if r.random() < 0.3:
                 # the seed answers with a redirect: the document lives somewhere else (other directory, maybe other scheme / host)
-                start = r.choice(["http://site.example/old/start%d", "http://www.site.example/start%d", "https://site.example/a/b/c/start%d"]) % k
-                site.add(start, status=r.choice([301, 302, 308]), location=page, body="moved")
-            act, tree, trace = stage.run_seed(run_, cfg, site, start, seed_id="d%d" % k, max_passes=3, dc_match=lambda x: False, regex_match=lambda x: False)
+                # … possibly behind a chain of redirects (the page requisites of the landing page count from the landing page)
+                chain = [s_ % k for s_ in r.sample(["http://site.example/old/start%d", "http://www.site.example/start%d", "https://site.example/a/b/c/start%d"],
+                                                   r.choice([1, 1, 2, 3]))]
+                start = chain[0]
+                for here, there in zip(chain, chain[1:] + [page]):
+                    site.add(here, status=r.choice([301, 302, 308]), location=there, body="moved")
+                ctx.count("redirect-chain:%d" % len(chain))
+            act, tree, trace = stage.run_seed(run_, cfg, site, start, seed_id="d%d" % k, max_passes=6, dc_match=lambda x: False, regex_match=lambda x: False)
             requested = {q["canon"] for q in trace["requests"]}
             want = expected(page, planted, cfg) if not cfg["disableAssets"] else {}
             kinds = {t for t, _ in planted}
